@@ -68,7 +68,13 @@ MUST_REACH = ['debian.deb822:Deb822.validate_input', 'debian.deb822:Deb822.__set
               'debian.deb822:Deb822._dump_format', 'debian.deb822:Deb822._internal_parser',
               'debian.deb822:Deb822.iter_paragraphs']
 
-FLOORS = {'quick': {'nontrivial': 2, 'monitors': {}, 'counters': {}},
+# ~50% of what a run on the current tree measures; the enumeration counters are deterministic and must be complete
+FLOORS = {'quick': {'nontrivial': 45000,
+                    'monitors': {'M.reread': 340000, 'M.must-reject': 88000, 'M.unchanged': 89000,
+                                 'K.setitem-raise': 90000},
+                    'counters': {'enum-len:5': 100000, 'enum-len:4': 10000, 'accepted-multiline': 30000,
+                                 'copy-checked': 1300, 'route:update': 1700, 'route:ctor': 1600,
+                                 'route:setdefault': 600}},
           'thorough': {'nontrivial': 2, 'monitors': {}, 'counters': {}}}
 
 WS_FALSE = {'whitespace-separates-paragraphs': False}
@@ -380,7 +386,12 @@ def run_case(ctx, case):
             ctx.evaluations += 1
         first = False
         ctx.count('enum-len:%d' % k)
-        chosen = (0, 1 + n % rot) if k >= 6 else (0, 1, 2 + n % (rot - 1))
+        if k <= 5:
+            chosen = (0, 1, 2 + n % (rot - 1))
+        elif k == 6 or n % 3 == 0:
+            chosen = (0, 1 + (n // 3 if k > 6 else n) % rot)
+        else:
+            chosen = (0,)
         for li in chosen:
             lay = ENUM_LAYOUTS[li]
             pristine[li] = assign_and_check(ctx, lay['fields'], lay['target'], v, 'setitem', pristine[li])
